@@ -287,7 +287,7 @@ def run_cluster(case):
     viol = None
     stuck = set()
     try:
-        simprop.boot(sim)
+        simprop.boot(sim, need_leader=True)
         for kind, who, x, y in case['steps']:
             if sim.viol:
                 break
@@ -406,6 +406,10 @@ def run_cluster(case):
                 return (sum(1 for n in sim.live() if sim.nodes[n]._isLeader()) == 1 and
                         all(sim.nodes[n].raftLastApplied >= top for n in sim.live() if n not in stuck))
             settle(sim, converged, rounds=1500)     # 30 virtual seconds: > 20 election timeouts
+            for n in names:                         # a version entry may have committed only now
+                sv = selfver(prog, t if is_old[n] else None)
+                if any(ppickle.loads(sim.G[p][0][1:]) > sv for p in sim.vmodel['switch_pos']):
+                    stuck.add(n)
             # every node that supports the enabled version converges to the full fold
             top = max([sim.nodes[n].raftCommitIndex for n in sim.live()] or [1])
             for n in sim.live():
